@@ -63,6 +63,9 @@ Full statement / proved / missing
   of the chain, the static root included, makes the name resolve to that value; `ResolveResolvables` = the definitions of
   the declared types in order, ended by the first rejection: `C12_rr_loop`, `C12_rr_ok`, `C12_rr_queue`,
   `C12_rr_writeonce(_run)`, `C12_rr_plain`, witness `C12_rr_drops_rest`.                                              proved
+* type sets as providers of names (`px.AddTypes` of a TypeSet, `addTypeSet`): `C12_addts_refines` (refinement: a member
+  that resolves is skipped, any other defined), `C12_addts_members`, `C12_addts_after_miss` (misses are not sticky for
+  type sets), witness `C12_addts_known_member_kept`.                                                               proved
 * missing / outside the model: type-set loaders with children or references or beside dependency loaders, dependency
   loaders over anything but plain loaders, file-based loaders (C15); names that are not valid UTF-8; the preloaded
   contents of the static loader other than `Integer` (checked disjoint from the names used by the harness per line).  Tie: differential execution of whole
@@ -749,6 +752,7 @@ theorem C12_rr_writeonce (tss : List (Option TypeSet)) (dps : List (Option Mods)
   | op o => exact bound_stepX_mono tss dps q.sys o l k v h
   | reg _ _ => exact h
   | rr l' => exact bound_rrLoop_mono tss dps q.sys l' q.queue l k v h
+  | addts l' nm ver ms => exact bound_addTypeSet_mono dps q.sys l' nm ver ms l k v h
 
 theorem C12_rr_writeonce_run (tss : List (Option TypeSet)) (dps : List (Option Mods)) (q : SysQ) (ops : List OpQ) (l : Nat)
     (k : Key) (v : V) (h : bound q.sys l k = some v) : bound (runQ tss dps q ops).1.sys l k = some v := by
@@ -781,6 +785,93 @@ theorem C12_rr_drops_rest :
       .op (.load 1 nb), .op (.load 1 nc), .rr 1, .op (.load 1 nc)]).2 =
     [.ok, .ok, .ok, .ok, .reported "PCORE_ATTEMPT_TO_REDEFINE_TYPE", .found (.al "b" 1), .notfound, .ok, .notfound] := by
   decide +kernel
+
+/-! ### type sets as providers of names (`px.AddTypes` of a TypeSet: `addTypeSet`, `addMembers` in `Model/LoaderStatic.lean`)
+
+"A TypeSet bound at `A` answers `A::B`" — because adding it binds its members, under their qualified names, in the loader
+it is added through, wherever nothing resolved before.  The same abstract specification (`bound` / `resolve`) describes
+the outcome: no new notion of lookup is needed. -/
+
+/-- REFINEMENT: on a hierarchy of plain loaders `resolveTypeSet` is, member by member in declaration order: a member whose
+    qualified name resolves through the loader is skipped (whatever it resolves to), any other is defined in the loader —
+    said with the specification `resolve`, not with the code's `LoadEntry` -/
+theorem C12_addts_refines (dps : List (Option Mods)) (s : Sys) (l : Nat) (ts m : String) (k : Nat) (r : List (String × Nat))
+    (hd : ∀ a ∈ chain s.ps l, dps.getD a none = none) :
+    addMembers dps s l ts [] = (s, .ok) ∧
+    addMembers dps s l ts ((m, k) :: r) =
+      if (resolve s l (canon (memberName ts m))).isSome then addMembers dps s l ts r
+      else if (define s l (memberName ts m) (memberVal ts m k)).2 = .ok then
+        addMembers dps (define s l (memberName ts m) (memberVal ts m k)).1 l ts r
+      else define s l (memberName ts m) (memberVal ts m k) := ⟨rfl, addMembers_cons_plain dps s l ts m k r hd⟩
+
+/-- after a type set was added through `l` EVERY member resolves through `l`: to what its qualified name resolved to
+    before, otherwise to the member; no member is rejected; no other name changes its resolution -/
+theorem C12_addts_members (dps : List (Option Mods)) (s : Sys) (l : Nat) (ts : String) (ms : List (String × Nat))
+    (hd : ∀ a ∈ chain s.ps l, dps.getD a none = none) (hshape : l ∉ ancestors s.ps l) (hl : l < s.es.length)
+    (hnd : (ms.map fun m => canon (memberName ts m.1)).Nodup) :
+    (addMembers dps s l ts ms).2 = .ok ∧
+    (∀ m ∈ ms, resolve (addMembers dps s l ts ms).1 l (canon (memberName ts m.1)) =
+      some ((resolve s l (canon (memberName ts m.1))).getD (memberVal ts m.1 m.2))) ∧
+    ∀ k', k' ∉ ms.map (fun m => canon (memberName ts m.1)) → resolve (addMembers dps s l ts ms).1 l k' = resolve s l k' := by
+  obtain ⟨h1, _, _, h4, h5⟩ := addMembers_spec dps s l ts ms hd hshape hl hnd
+  exact ⟨h1, h5, h4⟩
+
+/-- MISSES ARE NOT STICKY for type sets: whatever lookups failed before (cached misses anywhere along the chain), once a
+    type set none of whose names resolved is added through `l`, the set and every member resolve through `l` -/
+theorem C12_addts_after_miss (dps : List (Option Mods)) (s : Sys) (l : Nat) (ts : String) (ver : Nat)
+    (ms : List (String × Nat)) (hd : ∀ a ∈ chain s.ps l, dps.getD a none = none) (hshape : l ∉ ancestors s.ps l)
+    (hl : l < s.es.length) (hnd : (ms.map fun m => canon (memberName ts m.1)).Nodup)
+    (hts : canon ⟨runtimeAuthority, "type", ts⟩ ∉ ms.map (fun m => canon (memberName ts m.1)))
+    (hmiss : resolve s l (canon ⟨runtimeAuthority, "type", ts⟩) = none)
+    (hmissm : ∀ m ∈ ms, resolve s l (canon (memberName ts m.1)) = none) :
+    (addTypeSet dps s l ts ver ms).2 = .ok ∧
+    resolve (addTypeSet dps s l ts ver ms).1 l (canon ⟨runtimeAuthority, "type", ts⟩) = some (.tset ts ver) ∧
+    ∀ m ∈ ms, resolve (addTypeSet dps s l ts ver ms).1 l (canon (memberName ts m.1)) = some (memberVal ts m.1 m.2) := by
+  obtain ⟨h1, h2, h3, h4, h5⟩ := addMembers_spec dps s l ts ms hd hshape hl hnd
+  have hdef := resolve_define_new (addMembers dps s l ts ms).1 l ⟨runtimeAuthority, "type", ts⟩ (.tset ts ver)
+    (by rw [h3]; exact hl) (by rw [h4 _ hts]; exact hmiss)
+  have hadd : addTypeSet dps s l ts ver ms =
+      define (addMembers dps s l ts ms).1 l ⟨runtimeAuthority, "type", ts⟩ (.tset ts ver) := by
+    unfold addTypeSet
+    generalize addMembers dps s l ts ms = r at h1
+    obtain ⟨s1, a⟩ := r
+    simp only at h1
+    subst h1
+    rfl
+  rw [hadd]
+  refine ⟨hdef.1, hdef.2, ?_⟩
+  intro m hm
+  have hne : canon (memberName ts m.1) ≠ canon ⟨runtimeAuthority, "type", ts⟩ := by
+    intro e; apply hts; rw [← e]; exact List.mem_map_of_mem (f := fun m => canon (memberName ts m.1)) hm
+  rw [resolve_define_other _ l _ _ l _ hne, h5 m hm, hmissm m hm]; rfl
+
+/-! #### non-vacuity: the history of the seeded change C12-s6 (`@tsadd`), now inside the model: misses through the child and
+    the root, then the type set added through the child -/
+
+def zooMs : List (String × Nat) := [("Car", 1), ("Plane", 2)]
+def nZoo : Name := ⟨runtimeAuthority, "type", "Zoo"⟩
+def nZooCar : Name := ⟨runtimeAuthority, "type", "zoo::CAR"⟩
+def zooMissed : Sys := (run (Sys.init [none, some 0]) [.load 1 nZooCar, .load 0 nZooCar, .load 1 nZoo]).1
+example : (∀ a ∈ chain zooMissed.ps 1, ([] : List (Option Mods)).getD a none = none) ∧ 1 ∉ ancestors zooMissed.ps 1 ∧
+    1 < zooMissed.es.length ∧ (zooMs.map fun m => canon (memberName "Zoo" m.1)).Nodup ∧
+    canon nZoo ∉ zooMs.map (fun m => canon (memberName "Zoo" m.1)) ∧ resolve zooMissed 1 (canon nZoo) = none ∧
+    (∀ m ∈ zooMs, resolve zooMissed 1 (canon (memberName "Zoo" m.1)) = none) ∧
+    lk (canon nZooCar) (zooMissed.ents 1) = some none ∧ lk (canon nZooCar) (zooMissed.ents 0) = some none := by
+  decide +kernel
+example : (runQ [] [] { sys := zooMissed, queue := [] }
+      [.addts 1 "Zoo" 0 zooMs, .op (.load 1 nZooCar), .op (.load 1 nZoo), .op (.load 0 nZooCar), .op (.discover 1 fun _ => true)]).2 =
+    [.ok, .found (.al "Zoo::Car" 1), .found (.tset "Zoo" 0), .notfound,
+     .keys [canon nZoo, canon nZooCar, canon (memberName "Zoo" "Plane")]] := by decide +kernel
+/-- a member whose qualified name ALREADY resolves — here to another value, bound in the parent — is skipped silently (no
+    reported redefinition); an equal type set (same name and version, other members) is an equal re-definition; another
+    version is rejected after its new member was bound -/
+theorem C12_addts_known_member_kept :
+    (runQ [] [] { sys := Sys.init [none, some 0], queue := [] }
+      [.op (.define 0 nZooCar (.ty 9)), .addts 1 "Zoo" 0 zooMs, .op (.load 1 nZooCar),
+       .op (.load 1 (memberName "Zoo" "Plane")), .addts 1 "Zoo" 0 [("Car", 5)], .addts 1 "Zoo" 1 [("Truck", 3)],
+       .op (.load 1 (memberName "Zoo" "Truck")), .op (.load 1 nZoo)]).2 =
+    [.ok, .ok, .found (.ty 9), .found (.al "Zoo::Plane" 2), .ok, .reported "PCORE_ATTEMPT_TO_REDEFINE_TYPE",
+     .found (.al "Zoo::Truck" 3), .found (.tset "Zoo" 0)] := by decide +kernel
 
 /-! ### the defects that were repaired, as witnesses on the pre-fix definitions -/
 
